@@ -247,12 +247,18 @@ def r3(F, rep):
     base = None
     for m in METRIC:
         ks, per = shifts[m]
-        deleg = [c for c in X.calls(fs[m]) if X.callee_name(c) in METRIC and X.callee_name(c) != m]
+        # a distance function may delegate to another distance function, never to wrap(): wrap() folds a VALUE around
+        # wrap_center, a distance folds a DIFFERENCE around zero
+        deleg = [c for c in X.calls(fs[m]) if X.callee_name(c) in METRIC and X.callee_name(c) != m and
+                 (X.callee_name(c) != "wrap" or m == "wrap")]
         if deleg and not ks:
             rep.add("C18-R3", "cvc::%s" % m, fs[m].loc(), "cvc::%s delegates to cvc::%s" % (m, X.callee_name(deleg[0])), True, func=fs[m].q)
             continue
         shape = ["+ 0.5" in k or "0.5 +" in k for k in norm[m]]
         ok = per and len(ks) >= 1 and all(shape) and all("this.period" in k for k in norm[m])
+        # centre of the folding interval: zero for differences, wrap_center for values
+        centred = [("wrap_center" in k) for k in norm[m]]
+        ok = ok and (all(centred) if m == "wrap" else not any(centred))
         rep.add("C18-R3", "cvc::%s" % m, fs[m].loc(), "cvc::%s: %s" % (m, "nearest-image shift floor(d/period + 0.5) under f_cvc_periodic"
                                                                        if ok else "periodic image expression differs: %s" % norm[m]),
                 ok, func=fs[m].q)
